@@ -858,7 +858,6 @@ KNOWN_MATCHERS['F-C10-1'] = _probe_matcher(['ci-nonascii', 'ci-escaped-letter'])
 KNOWN_MATCHERS['F-C10-3'] = _probe_matcher(['hex-no-codepoint'])
 KNOWN_MATCHERS['F-C10-4'] = _probe_matcher(['final-comment-no-newline'])
 KNOWN_MATCHERS['F-C10-5'] = _probe_matcher(['action-brace-in-string'])
-KNOWN_MATCHERS['F-C10-6'] = _probe_matcher(['class-trailing-dash'])
 
 
 PROPS = {'C01': c01, 'C08': c08, 'C10': c10, 'C15': c15, 'C09': c09, 'C12': c12, 'C13': c13, 'C14': c14, 'C17': c17, 'C16': c16, 'C18': c18, 'C02': c02, 'C03': c03, 'C04': c04, 'C05': c05, 'C06': c06, 'C07': c07, 'C11': c11}
